@@ -107,6 +107,9 @@ BIN = {
 UNA = {
     "mul_num": lambda a: a * 2, "rmul_num": lambda a: 2 * a, "div_num": lambda a: a / 2, "rdiv_num": lambda a: 2 / a,
     "add_num": lambda a: a + 2, "radd_num": lambda a: 2 + a, "sub_num": lambda a: a - 2, "rsub_num": lambda a: 2 - a,
+    # identity elements: the places where an implementation is tempted to return the operand itself
+    "add_zero": lambda a: a + 0, "radd_zero": lambda a: 0 + a, "sub_zero": lambda a: a - 0,
+    "mul_one": lambda a: a * 1, "rmul_one": lambda a: 1 * a, "div_one": lambda a: a / 1, "sum_builtin": lambda a: sum([a]),
     "eq_num": lambda a: a == 2, "pow2": lambda a: a ** 2, "pow1": lambda a: a ** 1, "pow_half": lambda a: a ** (1, 2), "neg": lambda a: -a,
     "linspace_num": lambda a: np.linspace(a, 2, 3), "rlinspace_num": lambda a: np.linspace(2, a, 3),
     "index": lambda a: a[0],
